@@ -268,6 +268,98 @@ var heldObjects = ev.Register(&ev.P[heldCase]{
 	Require: []string{"twoEvictions"},
 })
 
+// accessors that take a convention argument (…BySect(int)): their results must not depend on which
+// other convention was asked before on the same object
+type sectCall struct {
+	Method string
+	Sect   int
+}
+
+type sectCase struct {
+	T     ref.DT
+	Calls []sectCall
+}
+
+var sectMethods = func() []string {
+	t := reflect.TypeOf(&calendar.Lunar{})
+	var out []string
+	for i := 0; i < t.NumMethod(); i++ {
+		m := t.Method(i)
+		if m.Type.NumIn() == 2 && m.Type.In(1).Kind() == reflect.Int && m.Type.NumOut() == 1 && strings.HasSuffix(m.Name, "BySect") {
+			out = append(out, m.Name)
+		}
+	}
+	return out
+}()
+
+func callSect(l *calendar.Lunar, method string, sect int) string {
+	var out string
+	func() {
+		defer func() {
+			if r := recover(); r != nil {
+				out = fmt.Sprintf("PANIC:%v", r)
+			}
+		}()
+		res := reflect.ValueOf(l).MethodByName(method).Call([]reflect.Value{reflect.ValueOf(sect)})
+		tmp := map[string]string{}
+		out = dig.Render(res[0], method, tmp)
+		if ns, ok := res[0].Interface().(*calendar.NineStar); ok && ns != nil {
+			out += fmt.Sprintf("#%d", ns.GetIndex())
+		}
+	}()
+	return out
+}
+
+var sectHistory = ev.Register(&ev.P[sectCase]{
+	Name: "convention_argument_accessors_history_free",
+	Rule: "a generated moment (emphasis: between lunar New Year and Lichun, Jie days before the instant, 23:xx) and a generated sequence of calls to the lunar date's accessors that take a convention argument (all methods named …BySect(int), discovered by reflection, sect 1..3) — plus zero-argument defaults in between; oracle: every call on the ONE reused object returns what the same call returns on a fresh object built for the same moment (a memo keyed on too little, or invalidated by the wrong call, shows as a difference); non-trivial: the sequence asks one accessor under >= 2 conventions with another accessor in between",
+	Check: func(c sectCase) error {
+		reused := gen.Solar(c.T).GetLunar()
+		for i, k := range c.Calls {
+			var want, got string
+			if k.Sect == 0 { // the zero-argument default of the same accessor family
+				name := strings.TrimSuffix(k.Method, "BySect")
+				fresh := gen.Solar(c.T).GetLunar()
+				if !reflect.ValueOf(fresh).MethodByName(name).IsValid() {
+					continue
+				}
+				want, got = burst(fresh, []string{name}, 0), burst(reused, []string{name}, 0)
+			} else {
+				want, got = callSect(gen.Solar(c.T).GetLunar(), k.Method, k.Sect), callSect(reused, k.Method, k.Sect)
+			}
+			if want != got {
+				return fmt.Errorf("%v: call %d %s(%d) on a reused Lunar returns %.200q, a fresh object returns %.200q (earlier calls on the object: %v)", c.T, i, k.Method, k.Sect, got, want, c.Calls[:i])
+			}
+		}
+		return nil
+	},
+	Class: func(c sectCase) ([]string, bool) {
+		seen := map[string]map[int]bool{}
+		nt := false
+		last := ""
+		for _, k := range c.Calls {
+			if seen[k.Method] == nil {
+				seen[k.Method] = map[int]bool{}
+			}
+			if len(seen[k.Method]) >= 1 && !seen[k.Method][k.Sect] && last != k.Method {
+				nt = true
+			}
+			seen[k.Method][k.Sect] = true
+			last = k.Method
+		}
+		l := gen.Solar(c.T).GetLunar()
+		var ls []string
+		if l.GetYearZhiIndex() != l.GetYearZhiIndexByLiChun() {
+			ls = append(ls, "betweenNewYearAndLichun")
+		}
+		if l.GetMonthInGanZhi() != l.GetMonthInGanZhiExact() {
+			ls = append(ls, "jieDayBeforeInstant")
+		}
+		return ls, nt
+	},
+	Require: []string{"betweenNewYearAndLichun", "jieDayBeforeInstant"},
+})
+
 // ------------------------------------------------------------------------------------------
 // 2. concurrent programs
 
@@ -579,6 +671,36 @@ func TestC09(t *testing.T) {
 			h[i] = genCall(t, base)
 		}
 		return heldCase{Y: base, History: h}
+	})
+	sectHistory.Rapid(ev.Share(ev.Pick(1200, 24000)), func(t *rapid.T) sectCase {
+		var m ref.DT
+		switch rapid.IntRange(0, 3).Draw(t, "where") {
+		case 0: // between lunar New Year and Lichun (either order)
+			y := gen.Year(t, 2, 9990)
+			a, b := gen.NewYearJDN(y), ref.JDN(gen.Terms(y)[4].Y, gen.Terms(y)[4].M, gen.Terms(y)[4].D)
+			if a > b {
+				a, b = b, a
+			}
+			j := a + rapid.IntRange(0, b-a).Draw(t, "between")
+			yy, mm, dd := ref.FromJDN(j)
+			m = ref.DT{Y: yy, M: mm, D: dd, H: rapid.SampledFrom([]int{0, 12, 23}).Draw(t, "h")}
+		case 1: // a Jie day just before its instant
+			y := gen.Year(t, 2, 9990)
+			x := gen.Terms(y)[2*rapid.IntRange(1, 12).Draw(t, "jie")]
+			m = ref.FromSec(x.Sec() - int64(rapid.IntRange(1, 3600).Draw(t, "before")))
+			if m.D != x.D {
+				m = ref.DT{Y: x.Y, M: x.M, D: x.D}
+			}
+		default:
+			m = gen.MomentIn(t, 2, 9990)
+		}
+		n := rapid.IntRange(3, 14).Draw(t, "calls")
+		fam := []string{rapid.SampledFrom(sectMethods).Draw(t, "m1"), rapid.SampledFrom(sectMethods).Draw(t, "m2"), rapid.SampledFrom(sectMethods).Draw(t, "m3")}
+		var cs []sectCall
+		for i := 0; i < n; i++ {
+			cs = append(cs, sectCall{rapid.SampledFrom(fam).Draw(t, "method"), rapid.IntRange(0, 3).Draw(t, "sect")})
+		}
+		return sectCase{m, cs}
 	})
 	concurrent.Rapid(ev.Share(ev.Pick(120, 2400)), genConc)
 	// race-detector batches: the same generator, run in the -race child
